@@ -25,6 +25,12 @@ def make_cases(tier, rng):
                 # after the host has closed its side of the broker
                 ops.append("accept_during_shutdown")
             cases.append({"name": "l%d" % len(cases), "proto": p, "tls": t, "launch": l, "ops": ops})
+    # calls whose peer never comes (not with multiplexing, where gRPC keeps re-dialling for a while)
+    for p in ["netrpc", "grpc"]:
+        for _ in range(1 if tier == "quick" else 4):
+            ops = [rng.choice(OPS) for _ in range(rng.randint(0, 2))] + [rng.choice(["unmatched_dials", "unmatched_accept"]) if tier != "quick" else ("unmatched_dials" if p == "netrpc" else "unmatched_accept")]
+            rng.shuffle(ops)
+            cases.append({"name": "l%d" % len(cases), "proto": p, "tls": "", "launch": rng.choice(["cmd", "runner"]), "ops": ops})
     return cases
 
 
